@@ -17,6 +17,14 @@ CHECKS = {
    technique="TLA+ specs SnapshotReads.tla (reader/publisher model, TLC; torn-read variant refuted) and ProviderCache.tla (writer schedules); reads recorded from real reader goroutines running against gated refreshes are trace-validated by TLC against SnapshotReadsTrace.tla; Go race detector on the same schedules",
    text="TLC checks on the reader/publisher model that every read is served from exactly one published snapshot inside the read's window and that a reader's snapshot index never decreases (2 readers, 5 publications, update and merge publications); ProviderCache.tla's invariants ReadersNeverBlocked / NoRegress hold in every writer state. The binding replays the exhaustive and the simulated behaviours with reader goroutines calling List/Get/GetResults while the writer is parked inside a source (holding the writer lock) and right before every snapshot Store (yield hooks); a reader that makes no progress is 'blocked where the spec says enabled'; every recorded read is validated by TLC against the publication sequence; the -race build of the same run observes the data-race clause.",
    note="Schedules are those reachable by parking the writer in sources and at the Store hook; data races are judged by the Go race detector on these schedules only; Get/GetResults readers run only in histories without TTL expiry."),
+ "C09": dict(level="model_checking", design="6/C09", engine="tlc+harness",
+   technique="TLA+ spec Receiver.tla (allow filter -> closed -> LRU duplicate filter, capacity-1 out channel, un-cache) model-checked by TLC against a two-sided declarative reading of the duplicate rule; behaviours replayed on the real stringLRU (small capacities, verif export) and on a real announce.Receiver (capacity 64, BFS + simulated long histories)",
+   text="TLC checks for every history within the bounds that the operational LRU never contradicts the declarative rule (dropped only if seen and not un-cached since; certainly filtered inside the K-window; certainly delivered after K kept newer CIDs), that filtered announcements leave the filter untouched and that duplicates refresh recency; every terminal-state behaviour is replayed: filter contents after every operation on the real stringLRU for K=1..3 (exhaustive) and K=8 (simulated), and call results / delivered CID, peer and filtered addresses on a real Receiver for K=64 including simulated histories over 80 CIDs that cross the eviction boundary.",
+   note="The pubsub path (OrigPeer attribution, self-republication) is not exercised (no libp2p gossip in the replay); ambiguous corners of the wording (un-cache of other CIDs inside the window) accept both outcomes."),
+ "C16": dict(level="model_checking", design="6/C16", engine="tlc+harness",
+   technique="TLA+ spec ReceiverLocks.tla (every lock/unlock/channel step; TLC: termination under weak fairness, result table, mutex never leaked; pinned Close refuted) plus call-level behaviours of Receiver.tla replayed on a real Receiver (with and without pubsub topic) under a watchdog",
+   text="TLC explores all interleavings of the critical-section steps of Close (1-3 times), Direct, Next and UncacheCid for 2-3 threads and proves on the model that every call returns once a Close has returned, with the specified results and no leaked mutex; the call-level model (blocked Direct / Next, wake-up by Close, repeated Close) is enumerated exhaustively and each behaviour is executed on the real Receiver with every call under a 2 s watchdog, so a return path that leaves the receiver unusable shows as a hang at the next call; a subset runs with a libp2p host and topic and checks that the watcher goroutine exits.",
+   note="Interleavings inside calls are decided on the model only; the code is bound at call granularity (all blocking points are API boundaries). At most one blocked sender / receiver."),
 }
 PENDING = {
 }
